@@ -642,76 +642,100 @@ func runC09R2(c *eng.Ctx, r *eng.RuleCtx) {
 			return isS && s.Sel.Name == "Group" && isC && v == ""
 		}
 		snap := "snapshots"
-		table := []struct {
-			label string
-			fact  func(eng.Fact) bool
-			exp   keyExpect
-		}{
-			{"OnStartup", bt("OnStartup"), keyExpect{always: []string{"binding"}, possible: []string{"binding"}}},
-			{"Validating", bt("KubernetesValidating"), keyExpect{always: []string{"binding", "type", "review"}, possible: []string{"binding", "type", "review", snap}}},
-			{"Mutating", bt("KubernetesMutating"), keyExpect{always: []string{"binding", "type", "review"}, possible: []string{"binding", "type", "review", snap}}},
-			{"Conversion", bt("KubernetesConversion"), keyExpect{always: []string{"binding", "type", "fromVersion", "toVersion", "review"}, possible: []string{"binding", "type", "fromVersion", "toVersion", "review", snap}}},
-			{"Group", groupSet, keyExpect{always: []string{"binding", "type", "groupName"}, possible: []string{"binding", "type", "groupName", snap}}},
-			{"Schedule", bt("Schedule"), keyExpect{always: []string{"binding", "type"}, possible: []string{"binding", "type", snap}}},
+		// The documented key sets, decided per kind of context: the binding type (and whether a group is set, whether the
+		// kubernetes context has a type) is assumed, every condition, switch arm, flag and named condition is evaluated under
+		// the assumption, and the keys stored on the feasible paths to any exit are collected - `always`: no feasible
+		// path reaches an exit without the store; `possible`: a store of the key is on some feasible path.
+		_, _ = bt, groupSet
+		btConsts := map[types.Object]bool{}
+		for _, nm := range []string{"OnStartup", "KubernetesValidating", "KubernetesMutating", "KubernetesConversion", "Schedule", "OnKubernetesEvent"} {
+			if o := p.Object(pkgHTypes, nm); o != nil {
+				btConsts[o] = true
+			}
 		}
-		used := map[*eng.GNode]string{}
-		for _, row := range table {
-			var match []returnKeys
-			for _, rk := range rets {
-				if used[rk.Node] == "" && g.OnlyVia(rk.Node, nil, g.FactEdge(row.fact)) {
-					match = append(match, rk)
+		scenario := func(btName string, group, typed int) func(eng.Fact) bool {
+			want := p.Object(pkgHTypes, btName)
+			return func(fc eng.Fact) bool {
+				x, y, eq, ok := eng.EqAtom(fc)
+				if !ok {
+					return false
 				}
-			}
-			construct := f.Key + " return[" + row.label + "]"
-			if len(match) != 1 {
-				r.Unknown(construct, f.Decl.Pos(), fmt.Sprintf("expected exactly one return controlled by the %s condition, found %d", row.label, len(match)))
-				continue
-			}
-			rk := match[0]
-			used[rk.Node] = row.label
-			ok := sameSet(rk.Always, row.exp.always) && subsetOf(rk.Possible, row.exp.possible)
-			r.Check(ok, construct, rk.Node.Node.Pos(), fmt.Sprintf("always=%v possible=%v", rk.alwaysList(), rk.possibleList()),
-				fmt.Sprintf("keys of a %s context: always=%v possible=%v, documented: always=%v, at most %v", row.label, rk.alwaysList(), rk.possibleList(), row.exp.always, row.exp.possible))
-		}
-		// remaining returns: the short way (non-kubernetes / empty type) and the final kubernetes return
-		var rest []returnKeys
-		for _, rk := range rets {
-			if used[rk.Node] == "" {
-				rest = append(rest, rk)
-			}
-		}
-		if len(rest) != 2 {
-			r.Unknown(f.Key+" remaining returns", f.Decl.Pos(), fmt.Sprintf("expected the short return and the final kubernetes return, found %d unclassified returns", len(rest)))
-		} else {
-			short, final := rest[0], rest[1]
-			if short.Node.Node.Pos() > final.Node.Node.Pos() {
-				short, final = final, short
-			}
-			r.Check(sameSet(short.Always, []string{"binding"}) && subsetOf(short.Possible, []string{"binding", snap}), f.Key+" return[short]", short.Node.Node.Pos(), fmt.Sprintf("always=%v possible=%v", short.alwaysList(), short.possibleList()), fmt.Sprintf("keys of a non-kubernetes context without type: always=%v possible=%v, documented: binding (+snapshots)", short.alwaysList(), short.possibleList()))
-			okFinal := sameSet(final.Always, []string{"binding", "type"}) && subsetOf(final.Possible, []string{"binding", "type", "watchEvent", "objects", "object", "filterResult", snap, "*dynamic"})
-			r.Check(okFinal, f.Key+" return[kubernetes]", final.Node.Node.Pos(), fmt.Sprintf("always=%v possible=%v", final.alwaysList(), final.possibleList()), fmt.Sprintf("keys of a kubernetes context: always=%v possible=%v, documented: binding,type always; watchEvent, objects | object, filterResult, snapshots conditionally", final.alwaysList(), final.possibleList()))
-		}
-		// precedence: once a group is set the context is rendered as Group, so the Schedule / short / kubernetes returns
-		// are reachable only with an empty group
-		groupEmpty := g.FactEdge(func(fc eng.Fact) bool {
-			x, y, eq, ok := eng.EqAtom(fc)
-			if !ok || !eq {
+				for i := 0; i < 2; i++ {
+					sx, isS := ast.Unparen(x).(*ast.SelectorExpr)
+					if isS && sx.Sel.Name == "BindingType" && btConsts[eng.SelObj(info, y)] {
+						return eq == (eng.SelObj(info, y) == want)
+					}
+					if v, isC := eng.ConstStr(info, y); isS && isC && v == "" {
+						if sx.Sel.Name == "Group" && group != 0 {
+							return eq == (group < 0)
+						}
+						if sx.Sel.Name == "Type" && typed != 0 {
+							return eq == (typed < 0)
+						}
+					}
+					x, y = y, x
+				}
 				return false
 			}
-			s, isS := ast.Unparen(x).(*ast.SelectorExpr)
-			v, isC := eng.ConstStr(info, y)
-			return isS && s.Sel.Name == "Group" && isC && v == ""
-		})
-		for _, rk := range rets {
-			lbl := used[rk.Node]
-			if lbl == "Schedule" || lbl == "" {
-				name := lbl
-				if name == "" {
-					name = "kubernetes/short@" + fmt.Sprint(p.Fset.Position(rk.Node.Node.Pos()).Line-p.Fset.Position(f.Decl.Pos()).Line)
-				}
-				r.Check(g.OnlyVia(rk.Node, nil, groupEmpty), f.Key+" group-precedence "+lbl+fmt.Sprintf("#%d", len(r.Obs)), rk.Node.Node.Pos(), "reachable only with an empty group", "a context of a binding with a `group` can be rendered as "+name+" instead of type Group (a grouped binding must produce a Group context with only snapshots)")
-			}
 		}
+		byKey := map[string]map[*eng.GNode]bool{}
+		for _, st := range stores {
+			if byKey[st.Key] == nil {
+				byKey[st.Key] = map[*eng.GNode]bool{}
+			}
+			byKey[st.Key][st.Node] = true
+		}
+		kube := []string{"binding", "type", "watchEvent", "objects", "object", "filterResult", snap, "*dynamic"}
+		for _, row := range []struct {
+			label         string
+			bt            string
+			group, typed  int
+			always, maybe []string
+		}{
+			{"OnStartup", "OnStartup", 0, 0, []string{"binding"}, []string{"binding"}},
+			{"Validating", "KubernetesValidating", 0, 0, []string{"binding", "type", "review"}, []string{"binding", "type", "review", snap}},
+			{"Mutating", "KubernetesMutating", 0, 0, []string{"binding", "type", "review"}, []string{"binding", "type", "review", snap}},
+			{"Conversion", "KubernetesConversion", 0, 0, []string{"binding", "type", "fromVersion", "toVersion", "review"}, []string{"binding", "type", "fromVersion", "toVersion", "review", snap}},
+			{"Group", "Schedule", +1, 0, []string{"binding", "type", "groupName"}, []string{"binding", "type", "groupName", snap}},
+			{"Group", "OnKubernetesEvent", +1, 0, []string{"binding", "type", "groupName"}, []string{"binding", "type", "groupName", snap}},
+			{"Schedule", "Schedule", -1, 0, []string{"binding", "type"}, []string{"binding", "type", snap}},
+			{"short", "OnKubernetesEvent", -1, -1, []string{"binding"}, []string{"binding", snap}},
+			{"kubernetes", "OnKubernetesEvent", -1, +1, []string{"binding", "type"}, kube},
+		} {
+			assumed := scenario(row.bt, row.group, row.typed)
+			inf := g.Infeasible(assumed)
+			feasible := g.Reach(eng.Query{FromEntry: true, Assume: assumed, AvoidEdge: inf})
+			always, possible := map[string]bool{}, map[string]bool{}
+			exits := 0
+			for n := range feasible {
+				if n.Exit {
+					exits++
+				}
+			}
+			for k, nodes := range byKey {
+				for n := range nodes {
+					if feasible[n] {
+						possible[k] = true
+					}
+				}
+				if !possible[k] {
+					continue
+				}
+				if g.MustPassToExit(eng.Query{FromEntry: true, Assume: assumed, AvoidEdge: inf}, func(m *eng.GNode) bool { return nodes[m] }) == nil {
+					always[k] = true
+				}
+			}
+			construct := f.Key + " keys[" + row.label + "/" + row.bt + "]"
+			if exits == 0 {
+				r.Unknown(construct, f.Decl.Pos(), "no exit of the function is feasible for this kind of context")
+				continue
+			}
+			rk := returnKeys{Always: always, Possible: possible}
+			ok := sameSet(always, row.always) && subsetOf(possible, row.maybe)
+			r.Check(ok, construct, f.Decl.Pos(), fmt.Sprintf("always=%v possible=%v", rk.alwaysList(), rk.possibleList()),
+				fmt.Sprintf("keys of a %s context (binding type %s): always=%v possible=%v, documented: always=%v, at most %v", row.label, row.bt, rk.alwaysList(), rk.possibleList(), row.always, row.maybe))
+		}
+		_ = rets
 		// control dependence of single keys
 		typeEq := func(name string) func(fc eng.Fact) bool {
 			o := p.Object(pkgKemT, name)
@@ -781,28 +805,36 @@ func runC09R2(c *eng.Ctx, r *eng.RuleCtx) {
 				r.Check(!reachNotIncluded[st.Node], fmt.Sprintf("%s key snapshots#%d", f.Key, nSnap), st.Node.Node.Pos(), "only when the binding includes snapshots", "`snapshots` can be rendered although the binding includes no snapshots")
 			}
 		}
-		// snapshots present whenever included (for every return except OnStartup)
-		for _, rk := range rets {
-			if used[rk.Node] == "OnStartup" {
-				continue
+		// snapshots present whenever included (for every kind of context except OnStartup)
+		isSnapStore := func(n *eng.GNode) bool {
+			for _, st := range stores {
+				if st.Key == snap && st.Node == n {
+					return true
+				}
 			}
-			isSnapStore := func(n *eng.GNode) bool {
-				for _, st := range stores {
-					if st.Key == snap && st.Node == n {
-						return true
+			return false
+		}
+		for _, btName := range []string{"KubernetesValidating", "KubernetesMutating", "KubernetesConversion", "Schedule", "OnKubernetesEvent"} {
+			bad := token.NoPos
+			for _, w := range []map[string]bool{{"all": true}, {"some": true}} {
+				inc, kind := assumeInclude(w), scenario(btName, 0, 0)
+				a := func(fc eng.Fact) bool {
+					if k, _ := includeAtom(fc); k != "" {
+						return inc(fc)
+					}
+					return kind(fc)
+				}
+				for n := range g.Reach(eng.Query{FromEntry: true, Assume: a, AvoidEdge: g.Infeasible(a), AvoidNode: isSnapStore}) {
+					if n.Exit && !isSnapStore(n) {
+						bad = f.Decl.Pos()
+						if n.Node != nil {
+							bad = n.Node.Pos()
+						}
 					}
 				}
-				return false
 			}
-			reach := map[*eng.GNode]bool{}
-			for _, w := range []map[string]bool{{"all": true}, {"some": true}} {
-				a := assumeInclude(w)
-				for n := range g.Reach(eng.Query{FromEntry: true, Assume: a, AvoidEdge: g.Infeasible(a), AvoidNode: isSnapStore}) {
-					reach[n] = true
-				}
-			}
-			if reach[rk.Node] {
-				r.Bad(f.Key+" snapshots-when-included "+used[rk.Node], rk.Node.Node.Pos(), "a binding that includes snapshots can be rendered without the `snapshots` key")
+			if bad != token.NoPos {
+				r.Bad(f.Key+" snapshots-when-included "+btName, bad, "a binding that includes snapshots can be rendered without the `snapshots` key")
 			}
 		}
 	}
